@@ -75,6 +75,25 @@ D = {
  ('bucket.UnmarshalBinary','conv:(*hash.SHA256Hash)(d[12:])'):T('d[12:] has the 32 elements of the target array'),
  ('bucket.UnmarshalBinary','deref:*keySum'):T('result of the conversion above, never nil'),
  ('withCallbackURI','assert:err.(oauth.OAuth2Error)'):S('withCallbackURI:err.(oauth.OAuth2Error)'),
+ ('StatusList2021.Verify','nilcheck:credentialToVerify.CredentialStatus == nil'):T('no status, nothing to verify'),
+ ('StatusList2021.Verify','range:statuses'):T('bounded loop (model: verifyEntries)'),
+ ('StatusList2021.statusList','nilcheck:cr.Expires != nil'):T('guard of *cr.Expires'),
+ ('StatusList2021.statusList','deref:*cr.Expires'):T('under cr.Expires != nil in the same condition'),
+ ('StatusList2021.update','deref:*cred'):T('download returns a non-nil credential when it returns no error'),
+ ('StatusList2021.update','nilcheck:cred.ExpirationDate != nil'):T('GUARD of cred.ExpirationDate.IsZero() (Cfg.expirationNilGuard); without it: site update:cred.ExpirationDate.IsZero()(nil)'),
+ ('StatusList2021.validate','lencheck:len(cred.Type) > 2'):T('error: other types'),
+ ('StatusList2021.validate','nilcheck:cred.ID == nil'):T('error: id required'),
+ ('StatusList2021.validate','nilcheck:cred.Proof == nil'):T('error: proof required'),
+ ('StatusList2021.validate','nilcheck:cred.CredentialStatus != nil'):T('error: status list credential with a status'),
+ ('StatusList2021.validate','lencheck:len(target) != 1'):T('GUARD of target[0] (Cfg.singleSubjectGuard)'),
+ ('StatusList2021.validate','index:target[0]'):S('validate:target[0]'),
+ ('Resolver.Resolve','lencheck:len(encodedKey) == 0'):T('GUARD of encodedKey[0] (DidKey.Cfg.emptyGuard)'),
+ ('Resolver.Resolve','index:encodedKey[0]'):S('Resolve:encodedKey[0]'),
+ ('Resolver.Resolve','slice:encodedKey[1:]'):T('encodedKey has at least one character here'),
+ ('Resolver.Resolve','discard:io.ReadAll(reader)'):T('reading from a bytes.Reader does not fail'),
+ ('Resolver.Resolve','discard:unmarshalEC(elliptic.P521(), -1, mcBytes)'):T('expectedLen -1: unmarshalEC cannot return an error; invalid points give nil coordinates, which NewVerificationMethod rejects (data vmOk)'),
+ ('unmarshalEC','lencheck:len(pubKeyBytes) != expectedLen'):T('length error (model: keyLength tests)'),
+
  ('Parse','lencheck:len(message.Signatures()) != 1'):T('guard of Signatures()[0] (model: nSigs != 1)'),
  ('Parse','lencheck:len(token.JwtID()) > maxJtiLength'):T('jti length limit (model: jtiLen > maxJtiLength)'),
  ('bitstring.bit','lencheck:q >= len(*bs)'):T('guard of (*bs)[q]'),
@@ -110,6 +129,26 @@ D = {
  ('Wrapper.validatePresentationAudience','range:audience'):T('bounded loop'),
 
 }
+# functions that are NOT (or only partly) inside a model: every partial operation is listed with the harness entry point that samples it
+SAMPLED = {}
+def _s(file, fns, ep):
+    for f in fns: SAMPLED[file + ':' + f] = ep
+_s('auth/api/iam/openid4vp.go', ['Wrapper.getClientMetadataFromRequest', 'Wrapper.getPresentationDefinitionFromRequest'], 'iam.handleAuthorizeRequestFromVerifier')
+_s('vcr/revocation/statuslist2021_verifier.go', ['StatusList2021.Verify', 'StatusList2021.statusList', 'StatusList2021.update', 'StatusList2021.download', 'StatusList2021.verify', 'StatusList2021.validate'], 'revocation.Verify / revocation.statusListCredential')
+_s('vcr/revocation/bitstring.go', ['bitstring.Scan', 'expand'], 'revocation.bitstring.Scan / revocation.statusListCredential')
+_s('vdr/didkey/resolver.go', ['Resolver.Resolve', 'unmarshalEC'], 'didkey.Resolve')
+_s('vdr/didjwk/resolver.go', ['Resolver.Resolve'], 'didjwk.Resolve')
+_s('vdr/didweb/web.go', ['Resolver.Resolve'], 'didweb.Resolve')
+_s('vcr/credential/util.go', ['ResolveSubjectDID', 'PresenterIsCredentialSubject', 'PresentationIssuanceDate', 'PresentationExpirationDate', 'AutoCorrectSelfAttestedCredential', 'FilterOnDIDMethod'], 'credential.vp / credential.vc')
+_s('vcr/credential/resolver.go', ['PresentationSigner', 'ParseLDProof'], 'credential.vp')
+_s('vcr/credential/validator.go', ['validateNutsCredentialID'], 'credential.vc')
+_s('vcr/verifier/verifier.go', ['verifier.Verify', 'verifier.doVerifyVP'], 'verifier.Verify / verifier.VerifyVP')
+_s('crypto/jwx.go', ['JWTKidAlg', 'ParseJWT', 'ParseJWS'], 'crypto.ParseJWT')
+_s('jsonld/ldutils.go', ['LDUtil.Canonicalize'], 'verifier.VerifyVP')
+_s('vdr/didnuts/validators.go', ['verificationMethodValidator.Validate', 'verificationMethodValidator.verifyThumbprint'], 'didnuts.validate+findKeyByThumbprint')
+_s('vdr/didnuts/ambassador.go', ['ambassador.findKeyByThumbprint'], 'didnuts.accepted-doc-then-findKeyByThumbprint')
+_s('network/transport/v2/handlers.go', ['protocol.Handle', 'protocol.handle', 'protocol.handleTransactionPayload', 'protocol.handleTransactionPayloadQuery', 'protocol.handleTransactionRangeQuery', 'protocol.handleGossip', 'protocol.handleTransactionListQuery', 'protocol.handleState', 'protocol.handleTransactionSet'], 'v2.Handle')
+
 q = lambda s: json.dumps(s, ensure_ascii=False)
 out, missing = [], []
 for key in order:
@@ -117,6 +156,10 @@ for key in order:
     ents = []
     for op in (facts.get(key) or []):
         d = D.get((fn, op))
+        if fn == 'Resolver.Resolve' and not key.startswith('vdr/didkey/'):
+            d = None
+        if d is None and key.split(':')[0] + ':' + fn in SAMPLED:
+            d = ('sampled', SAMPLED[key.split(':')[0] + ':' + fn])
         if d is None:
             missing.append((fn, op)); d = ('total', 'TODO')
         ents.append("    ⟨%s, .%s %s⟩" % (q(op), d[0], q(d[1])))
